@@ -272,6 +272,29 @@ impl EnfWorld {
                     Some(Ok(e)) => { self.enf = Some(e); "ok".into() }
                 };
             }
+            "e.newfilt" => {
+                // the adapter handed to the constructor has just served an adapter-level filtered load into the
+                // model handed to it (so it may report is_filtered)
+                self.conf = self.spec.conf();
+                let mut a1 = self.mk_adapter(rt, f[1], f[2], f[3]);
+                self.events.lock().clear();
+                self.kept_rm = None;
+                let conf = self.conf.clone();
+                let cached = self.cached;
+                let (fp, fg) = (dec_list(f[4]), dec_list(f[5]));
+                let r = catch(|| rt.block_on(async {
+                    let mut m = DefaultModel::from_str(&conf).await?;
+                    let filt = Filter { p: fp.iter().map(|s| s.as_str()).collect(), g: fg.iter().map(|s| s.as_str()).collect() };
+                    a1.load_filtered_policy(&mut m, filt).await?;
+                    if cached { Ok::<E, casbin::Error>(E::Cached(CachedEnforcer::new(m, FaultyBox(a1)).await?)) }
+                    else { Ok(E::Plain(Enforcer::new(m, FaultyBox(a1)).await?)) }
+                }));
+                return match r {
+                    None => "panic".into(),
+                    Some(Err(e)) => { self.enf = None; format!("err:{}", err_kind(&e)) }
+                    Some(Ok(e)) => { self.enf = Some(e); "ok".into() }
+                };
+            }
             "e.new" => {
                 self.conf = self.spec.conf();
                 let a = self.mk_adapter(rt, f[1], f[2], f[3]);
